@@ -270,8 +270,8 @@ imbv_perturb(const struct item *it, int idx, IMB_JOB *job, struct pert *p, const
         ENTRY(c == IMB_CIPHER_CCM, "ccm.aad_len=47") { job->u.CCM.aad_len_in_bytes = 47; ACC1(IMB_ERR_JOB_AAD_LEN); return 1; }
         ENTRY(c == IMB_CIPHER_CCM && it->c_len > 1, "ccm.hash_len!=cipher_len") { job->msg_len_to_hash_in_bytes = it->c_len - 1; ACC2(IMB_ERR_JOB_CIPH_LEN, IMB_ERR_JOB_AUTH_LEN); return 1; }
         ENTRY(c == IMB_CIPHER_CCM, "ccm.hash_off!=cipher_off") { job->hash_start_src_offset_in_bytes = it->c_off + 1; ACC1(IMB_ERR_JOB_SRC_OFFSET); return 1; }
-        ENTRY(h == IMB_AUTH_DOCSIS_CRC32, "docsis.cipher_off<hash_off+12") { job->cipher_start_src_offset_in_bytes = it->h_off + 11; ACC1(IMB_ERR_JOB_SRC_OFFSET); return 1; }
-        ENTRY(h == IMB_AUTH_DOCSIS_CRC32, "docsis.cipher_len>hash_len-8") { job->msg_len_to_cipher_in_bytes = it->h_len - 7; ACC1(IMB_ERR_JOB_CIPH_LEN); return 1; }
+        ENTRY(h == IMB_AUTH_DOCSIS_CRC32 && it->h_len && it->c_len, "docsis.cipher_off<hash_off+12") { job->cipher_start_src_offset_in_bytes = it->h_off + 11; ACC1(IMB_ERR_JOB_SRC_OFFSET); return 1; }
+        ENTRY(h == IMB_AUTH_DOCSIS_CRC32 && it->h_len && it->c_len, "docsis.cipher_len>hash_len-8") { job->msg_len_to_cipher_in_bytes = it->h_len - 7; ACC1(IMB_ERR_JOB_CIPH_LEN); return 1; }
         ENTRY(h == IMB_AUTH_DOCSIS_CRC32, "docsis.wrong_chain_order") { job->chain_order = job->chain_order == IMB_ORDER_CIPHER_HASH ? IMB_ORDER_HASH_CIPHER : IMB_ORDER_CIPHER_HASH; ACC1(IMB_ERR_JOB_CHAIN_ORDER); return 1; }
         ENTRY(h == IMB_AUTH_DOCSIS_CRC32, "docsis.hash_len=max+1") { job->msg_len_to_hash_in_bytes = 65535; ACC1(IMB_ERR_JOB_AUTH_LEN); return 1; }
         {
